@@ -339,20 +339,13 @@ def run(run):
         cw = T.root_var_id(pc["a"][1]) if len(pc["a"]) > 1 else None
         order = [x for x in T.walk(body)]
         pos = {id(x): i for i, x in enumerate(order)}
-        sorts = [(x, c) for x, c in T.paths_to(body, lambda y: T.is_call(y, ("sort", "sort_unstable", "sort_by", "sort_by_key", "sort_unstable_by", "sort_unstable_by_key")) and y.get("a") and T.root_var_id(y["a"][0]) == cw)]
-        def cond_keys(c):
-            return {(cd[0], id(cd[1]), id(cd[2]) if cd[0] == "arm" else cd[2]) for cd in c}
-        # unconditional relative to the print: every condition under which the sort runs also holds when the print runs
-        plain = [x for x, c in sorts if x["n"] in ("sort", "sort_unstable") and cond_keys(c) <= cond_keys(pconds)]
-        run.check("R3", "sorted-before-print", cw is not None and bool(plain) and pos[id(plain[-1])] < pos[id(pc)], "the collected warnings must be sorted unconditionally (total order of CweWarning) before they are printed", msite)
-        apps = [x for x in T.walk_fn(C, main) if T.is_call(x, ("append", "push", "extend", "insert", "extend_from_slice")) and x.get("a") and T.root_var_id(x["a"][0]) == cw]
-        if plain and apps:
-            late = [x for x in apps if id(x) in pos and pos[id(x)] > pos[id(plain[-1])]]
-            run.check("R3", "nothing-appended-after-sort", not late, "warnings are appended after the sort", msite)
-        run.check("R3", "print-gets-all-warnings", cw is not None and T.peel(pc["a"][1]).get("k") in ("Var", "Upvar"), "print_all_messages must receive the sorted warning vector itself; found %s" % T.show(pc["a"][1], C)[:100], msite)
-        if plain:
-            bad = [x for x in order if T.is_call(x, ("retain", "truncate", "clear", "dedup", "dedup_by_key", "dedup_by", "pop", "remove", "drain", "reverse", "swap_remove", "split_off")) and x.get("a") and T.root_var_id(x["a"][0]) == cw and pos[id(plain[-1])] < pos[id(x)] < pos[id(pc)]]
-            run.check("R3", "warnings-untouched-between-sort-and-print", not bad, "the warning list is modified between sorting and printing", msite)
+        from .lib import sortprint as SP2
+        sp_ = SP2.analyse(C, main)
+        if sp_["verdict"] == "undecided":
+            run.undecided("R3", "sorted-before-print", sp_["why"], msite)
+        else:
+            run.check("R3", "sorted-before-print", sp_["verdict"] == "holds", "the collected warnings must be sorted unconditionally (total order of CweWarning) after the last one was added and before they are printed: %s" % sp_["why"], msite)
+        run.check("R3", "print-gets-all-warnings", sp_["printed_is_var"], "print_all_messages must receive the sorted warning vector itself; found %s" % T.show(pc["a"][1], C)[:100], msite)
         # --quiet: the log list handed to print_all_messages is empty
         hits = {"quiet": 0}
 
